@@ -270,7 +270,10 @@ def check(ctx, facts, cfg, clause="A3"):
     ctx.check(len(rad) == 1, clause + ".radix-call", "prefixed integer literals are handed to one radix parser (%s)" % cfg, "%d candidates" % len(rad), where=loc, fn=f.key)
     for bi, t in rad:
         vs = PN.value_set(facts, f, f.trace(t["args"][1]))
-        ctx.check(vs == {16, 8, 2}, clause + ".radix-values", "radix ∈ {16, 8, 2} (%s)" % cfg, "radix values: %s" % (sorted(vs) if vs else vs), where=f.where(bi), fn=f.key, nontrivial=True)
+        if vs is None:
+            ctx.unread(clause + ".radix-values", "radix (%s)" % cfg, "the radix handed to the digit parser is not a set of constants the rule can read", where=f.where(bi), fn=f.key)
+        else:
+            ctx.check(vs == {16, 8, 2}, clause + ".radix-values", "radix ∈ {16, 8, 2} (%s)" % cfg, "radix values: %s" % (sorted(vs) if vs else vs), where=f.where(bi), fn=f.key, nontrivial=True)
         # prefix characters: the char switches that precede it
         chars = {}
         for sb in f.reachable():
@@ -285,7 +288,28 @@ def check(ctx, facts, cfg, clause="A3"):
                     chars[chr(int(v))] = rv
         want = {"0": None, "x": 16, "X": 16, "o": 8, "O": 8, "b": 2, "B": 2}
         radix_parser(ctx, facts, facts.body(callee_of(t)["key"]), clause, cfg)
-        ctx.check(chars == want, clause + ".radix-prefixes", "0x/0X → 16, 0o/0O → 8, 0b/0B → 2 (%s)" % cfg, "prefix characters: %s" % chars, where=f.where(bi), fn=f.key, nontrivial=True, sample={"prefixes": {k: v for k, v in chars.items()}})
+        if not chars:
+            # prefixes not spelled as character matches: a constant table of (prefix, radix) rows?
+            rows = None
+            for bi2, t2 in f.calls():
+                if (callee_path(t2) or "").endswith("::strip_prefix") or (callee_path(t2) or "").endswith("::starts_with"):
+                    pe = strip_refs(f.trace(t2["args"][1]))
+                    if pe[0] == "field" and isinstance(pe[2], int):
+                        rows = (PN._const_table_rows(facts, f, pe[1]), pe[2])
+            if rows and rows[0] is not None:
+                tab = {}
+                for r_ in rows[0]:
+                    r_ = strip_refs(r_)
+                    if r_[0] == "agg" and len(r_[2]) == 2:
+                        a_, b_ = strip_refs(r_[2][0]), strip_refs(r_[2][1])
+                        if a_[0] == "const" and b_[0] == "const":
+                            tab[const_value(a_[1])] = const_value(b_[1])
+                want_tab = {"0x": 16, "0X": 16, "0o": 8, "0O": 8, "0b": 2, "0B": 2}
+                ctx.check(tab == want_tab, clause + ".radix-prefixes", "0x/0X → 16, 0o/0O → 8, 0b/0B → 2 (%s)" % cfg, "prefix table: %s" % tab, where=f.where(bi), fn=f.key, nontrivial=True, sample={"prefixes": tab})
+            else:
+                ctx.unread(clause + ".radix-prefixes", "prefixes (%s)" % cfg, "the radix prefixes are not spelled as character matches or a constant table", where=f.where(bi), fn=f.key)
+        else:
+          ctx.check(chars == want, clause + ".radix-prefixes", "0x/0X → 16, 0o/0O → 8, 0b/0B → 2 (%s)" % cfg, "prefix characters: %s" % chars, where=f.where(bi), fn=f.key, nontrivial=True, sample={"prefixes": {k: v for k, v in chars.items()}})
     return f
 
 
@@ -295,6 +319,9 @@ def radix_parser(ctx, facts, rp, clause, cfg):
     through the integer parser of the standard library and/or a fold acc·radix + digit from 0."""
     if rp is None:
         raise Inconclusive("radix parser body not available")
+    if PN.loops_of(rp) and not any(re.search(r"Iterator(>)?::(all|fold)$", callee_path(t) or "") for b_ in [rp] + [b for b in facts.fns() if b.key.startswith(rp.key + "::{closure#")] for _, t in b_.calls()):
+        ctx.unread(clause + ".radix-results", "digit parser (%s)" % cfg, "the digit parser is written with explicit loops: its guards and its valuation are not read (the ban on other digit tests and the radix set still apply)", where=rp.where(), fn=rp.key)
+        return
     ints = [(bi, t) for bi, t in rp.calls() if re.search(r"^core::num::<impl [ui](64|128|size)>::from_str_radix$", callee_path(t) or "")]
     units = [rp] + [b for b in facts.fns() if b.key.startswith(rp.key + "::{closure#")]
     folds = [(b, bi, t) for b in units for bi, t in b.calls() if re.search(r"Iterator(>)?::fold$", callee_path(t) or "")]
